@@ -135,6 +135,19 @@ impl Property for C15 {
                 b.objective = None;
                 a.sense = 0;
                 b.sense = 0;
+                // "constraints and variables untouched"; description, recorded parameters and hints are not in the
+                // statement, and an absent sub-message and an empty one say the same
+                for x in [&mut a, &mut b] {
+                    if x.description == Some(Default::default()) {
+                        x.description = None;
+                    }
+                    if x.parameters == Some(Default::default()) {
+                        x.parameters = None;
+                    }
+                    if x.constraint_hints == Some(Default::default()) {
+                        x.constraint_hints = None;
+                    }
+                }
                 if a != b {
                     return fail("C15/min/other-fields", format!("constraints/variables/other fields changed: {}", describe_inst(&inst)));
                 }
@@ -152,7 +165,7 @@ impl Property for C15 {
                 // objective values, listed in a scrambled (not ascending) order of ids inside each value entry
                 let many = t.p(30);
                 let n = if many { *t.pick(&[33usize, 40, 64, 65, 100, 256, 300, 900]) } else { 1 + t.choice(8) };
-                let many_seed = t.byte() as u64;
+                let _many_seed = t.byte() as u64;
                 let unrelaxed = t.coin();
                 let tie = t.p(90);
                 let place: Vec<u8> = (0..8).map(|_| t.byte()).collect();
